@@ -47,10 +47,39 @@ impl Prop for C10 {
                 workers: 16,
                 build: Build::Normal,
             },
+            Leg {
+                name: "huge",
+                kind: LegKind::Random {
+                    cases: tier.pick(2, 20),
+                },
+                workers: 16,
+                build: Build::Normal,
+            },
         ]
     }
 
-    fn strategy(_leg: &str, _tier: Tier) -> BoxedStrategy<Case> {
+    fn strategy(leg: &str, _tier: Tier) -> BoxedStrategy<Case> {
+        if leg == "huge" {
+            // large but circuit-poor digraphs (the brute-force reference enumerates simple paths)
+            return (gen::huge_dg(), proptest::collection::vec((any::<u16>(), any::<u16>()), 0..5))
+                .prop_map(|((g, family), chords)| {
+                    let g = gen::truncate_dg(g, 300);
+                    let n = g.order;
+                    let poor = ["path", "rpath", "circuit", "cycle", "outtree", "intree", "star", "last-rows"].iter().any(|f| family.ends_with(f));
+                    let g = if poor {
+                        g
+                    } else {
+                        // a long circuit with a few chords
+                        let mut arcs: std::collections::BTreeSet<(usize, usize)> = (0..n).map(|i| (i, (i + 1) % n)).collect();
+                        for &c in &chords {
+                            arcs.insert(gen::arc_of(c, n));
+                        }
+                        Dg { order: n, arcs: arcs.into_iter().collect() }
+                    };
+                    Case { g, family: format!("{family}(circuit-poor)") }
+                })
+                .boxed();
+        }
         prop_oneof![
             4 => gen::digraph_labeled(7).prop_map(|(g, family)| Case { g, family }),
             // dense core on the first k vertices + sparse tails
